@@ -821,7 +821,7 @@ func main() {
 	rep.Coverage["transitions"] = rep.Counter("history_events") + rep.Counter("concurrent_executions")
 	rep.Coverage["traces_validated_against_impl"] = rep.Counter("executions")
 	rep.Coverage["exhaustive"] = rep.Incomplete == ""
-	rep.Coverage["bounds"] = fmt.Sprintf("%d scenarios: all event histories (21-event alphabet to depth 3 (quick) / 4 (thorough), 12-event alphabet to depth 4 / 5) from receiver initial windows {0,4,default}, both directions, each event followed by run-to-quiescence and invariants I1-I4 evaluated in every state; plus histories over a connection-window alphabet after a third stream used up 65531 / 65535 bytes of the connection window, MAX_FRAME_SIZE histories (raise, lower, back to default) with payloads above a frame; plus 24 concurrent DATA/WINDOW_UPDATE script pairs under schedule exploration; plus the audit families (depth 3 quick / 4-5 thorough each): duplex histories (DATA and grants in both directions, both directions judged), duplex with the connection window used up, MAX_FRAME_SIZE lowered with DATA queued and the lowering acknowledged, END_STREAM on DATA with and without payload and empty frames around windows <= 0, values at 2^31-1, MAX_FRAME_SIZE of both endpoints with duplex payloads above a frame, padding limits, stream processor factories, grants from a stalled receiver after bursts of 16/17/40 frames, 8 concurrent duplex script pairs", len(scen))
+	rep.Coverage["bounds"] = fmt.Sprintf("%d scenarios: all event histories (21-event alphabet to depth 3 (quick) / 4 (thorough), 12-event alphabet to depth 4 / 5) from receiver initial windows {0,4,default}, both directions, each event followed by run-to-quiescence and invariants I1-I4 evaluated in every state; plus histories over a connection-window alphabet after a third stream used up 65531 / 65535 bytes of the connection window, MAX_FRAME_SIZE histories (raise, lower, back to default) with payloads above a frame; plus 24 concurrent DATA/WINDOW_UPDATE script pairs under schedule exploration; plus the audit families (depth 3 quick / 4-5 thorough each): duplex histories (DATA and grants in both directions, both directions judged), duplex with the connection window used up, MAX_FRAME_SIZE lowered with DATA queued and the lowering acknowledged, END_STREAM on DATA with and without payload and empty frames around windows <= 0, values at 2^31-1, MAX_FRAME_SIZE of both endpoints with duplex payloads above a frame, padding limits, stream processor factories, grants from a stalled receiver after bursts of 16/17/40 frames, 8 concurrent duplex script pairs; round 7: MAX_FRAME_SIZE raised to 65536 (thorough also 2^24-1, and raised by a SETTINGS frame of the history, depth 6) then lowered to 16384 (thorough also 20000) and acknowledged with queued payloads of 2x, 2x+1, 3x+1 (thorough also 3x, 4x-1) of the lowered limit, held back by the stream window or by the connection window, depth 4", len(scen))
 	rep.Coverage["explanation"] = "states = distinct ledger states (windows, pending bytes, max frame size; both directions in duplex scenarios) summed over shards; every history is replayed on a fresh real relay (no deduplication); family_* = executions per family (core = the families that existed before the audit)"
 	rep.Assumptions = []string{"2 streams (3 when a third one uses up the connection window); sizes and increments from the alphabets", "a lowering of MAX_FRAME_SIZE announced while accepted DATA is still queued binds those queued frames from the moment the receiver has seen the lowering SETTINGS frame acknowledged (RFC 7540 section 6.5.3); until then frames of the old size are accepted", "I4 at the granularity of the relay's own frames (no obligation to split a frame to fit a smaller window); an empty DATA frame is owed only if it carries END_STREAM and neither window is negative", "receivers that grant a window above 2^31-1 are outside the space"}
 	rep.Finish()
